@@ -294,3 +294,141 @@ func (c *Ctx) registerForallFrame(full string) {
 	c.quantified = true
 	c.registerForall(full, []string{sym}, []string{"Int"}, full[bi+3:pi])
 }
+
+// ---------- hypothesis slicing (relevance filter) ----------
+// Dropping hypotheses only weakens them, so `unsat` of a sliced query implies `unsat` of the real one. For large
+// functions the sliced query (assumptions connected to the goal through non-hub symbols within two steps, after
+// expanding named definitions) is tried first with a short limit.
+
+var symRe = regexp.MustCompile(`[A-Za-z_][A-Za-z0-9_!]*`)
+
+type sliceIndex struct {
+	defBody map[string]string // define-fun name -> body text
+	declared map[string]bool
+}
+
+func (c *Ctx) buildSliceIndex(ndecl int) *sliceIndex {
+	ix := &sliceIndex{defBody: map[string]string{}, declared: map[string]bool{}}
+	for _, d := range c.decls[:ndecl] {
+		if strings.HasPrefix(d, "(define-fun ") {
+			rest := d[len("(define-fun "):]
+			sp := strings.IndexByte(rest, ' ')
+			if sp > 0 {
+				ix.defBody[rest[:sp]] = rest[sp:]
+				ix.declared[rest[:sp]] = true
+			}
+		} else if strings.HasPrefix(d, "(declare-const ") {
+			rest := d[len("(declare-const "):]
+			sp := strings.IndexByte(rest, ' ')
+			if sp > 0 {
+				ix.declared[rest[:sp]] = true
+			}
+		}
+	}
+	return ix
+}
+
+func (ix *sliceIndex) symsOf(text string, into map[string]bool) {
+	var stack []string
+	for _, t := range symRe.FindAllString(text, -1) {
+		if ix.declared[t] && !into[t] {
+			into[t] = true
+			stack = append(stack, t)
+		}
+	}
+	for len(stack) > 0 {
+		t := stack[len(stack)-1]
+		stack = stack[:len(stack)-1]
+		if b, ok := ix.defBody[t]; ok {
+			for _, u := range symRe.FindAllString(b, -1) {
+				if ix.declared[u] && !into[u] {
+					into[u] = true
+					stack = append(stack, u)
+				}
+			}
+		}
+	}
+}
+
+// slicedQuery returns a query with a subset of the assumptions, or "" when slicing would not remove much.
+func (c *Ctx) slicedQuery(o Obl, base string) string {
+	if o.NAsm < 60 {
+		return ""
+	}
+	ix := c.buildSliceIndex(o.NDecl)
+	asms := c.asms[:o.NAsm]
+	per := make([]map[string]bool, len(asms))
+	freq := map[string]int{}
+	for i, a := range asms {
+		m := map[string]bool{}
+		for _, t := range symRe.FindAllString(a, -1) {
+			if ix.declared[t] {
+				m[t] = true
+			}
+		}
+		per[i] = m
+		for t := range m {
+			freq[t]++
+		}
+	}
+	hubLimit := len(asms) / 8
+	if hubLimit < 8 {
+		hubLimit = 8
+	}
+	need := map[string]bool{}
+	ix.symsOf(o.Cond, need)
+	ix.symsOf(o.Reach, need)
+	take := make([]bool, len(asms))
+	for round := 0; round < 3; round++ {
+		added := false
+		for i := range asms {
+			if take[i] {
+				continue
+			}
+			hit := false
+			for t := range per[i] {
+				if need[t] && freq[t] <= hubLimit {
+					hit = true
+					break
+				}
+			}
+			if hit {
+				take[i] = true
+				added = true
+			}
+		}
+		if !added {
+			break
+		}
+		for i := range asms {
+			if take[i] {
+				ix.symsOf(asms[i], need)
+			}
+		}
+	}
+	n := 0
+	for _, t := range take {
+		if t {
+			n++
+		}
+	}
+	if n*10 > len(asms)*8 {
+		return "" // would keep more than 80 %: not worth a separate attempt
+	}
+	var sb strings.Builder
+	sb.WriteString(prelude)
+	for _, d := range c.decls[:o.NDecl] {
+		sb.WriteString(d)
+		sb.WriteByte('\n')
+	}
+	for i, a := range asms {
+		if take[i] && !hasQuant(a) {
+			sb.WriteString("(assert " + a + ")\n")
+		}
+	}
+	if hasQuant(o.Cond) || hasQuant(o.Reach) {
+		return ""
+	}
+	sb.WriteString("(assert " + o.Reach + ")\n(assert (not " + o.Cond + "))\n(check-sat)\n")
+	return sb.String()
+}
